@@ -265,7 +265,7 @@ SPEC = {
     "id": "C20",
     "components": [
         {"comp": "timer_table", "module": "QV.Model.TimerTable", "quick": 1500, "thorough": 40000},
-        {"comp": "sim_c20", "module": "QV.Sys.MonC20", "quick": 160, "thorough": 2400},
+        {"comp": "sim_c20", "module": "QV.Sys.MonC20", "quick": 280, "thorough": 2400},
     ],
     "extra": [ambient_inventory],
     "assumptions": [
